@@ -280,6 +280,19 @@ try:
             R.count(f'layout {bsr} rate {bpv}')
             run_file(p, f'segy2d ({nt},{ns}) bpv={bpv} bs={bsr}', 8 if quick else 25)
             os.remove(p)
+    # 2D lines whose traces span SEVERAL sample blocks, both 2D loader paths: sample windows that start at or beyond the first
+    # block, cross block boundaries, end at the trace end; sub-planes likewise
+    for bpv, bs, ns in ((16, (1, 16, 128), 300), (16, (1, 4, 512), 1100)) if not quick else ((16, (1, 16, 128), 300), (32, (1, 4, 256), 600)):
+        bsr = szutils.define_blockshape_2d(bpv, bs)[1]
+        nt = rng.choice([9, 21, 37])
+        p, arr = make_2d_file(rng, d, (nt, ns), bpv, bs)
+        zb = bsr[2]
+        wins = [(zb, zb + 44), (zb + 44, min(ns, 2 * zb + 10)), (2 * zb - 1, min(ns, 2 * zb + 1)), (ns - 5, ns), (zb + 1, ns), (zb - 1, zb + 1), (0, zb), (zb, None)]
+        extra = [('get_trace', (t, lo, hi)) for t in (0, nt // 2, nt - 1) for lo, hi in wins if hi is None or lo < hi] + \
+                [('read_subplane', (1, nt - 1, lo, hi)) for lo, hi in wins if hi is not None and lo < hi]
+        R.count(f'layout {bsr} rate {bpv} (2D, multi-z)')
+        run_file(p, f'segy2d ({nt},{ns}) bpv={bpv} bs={bsr} multi-z', 6 if quick else 20, extra=extra)
+        os.remove(p)
     # fixtures of every format version / layout in test_data
     fixtures = sorted(glob.glob(os.path.join(REPO, 'test_data', '*.sgz')))
     if not quick:
